@@ -123,6 +123,9 @@ def compare(ck, stream, sessions, results, only=None):
                      "outputs": sorted(k for k in r["sessions"].get(sid, {}) if not k.startswith("_"))},
                     tag=(sess.get("steps") or [{"op": "hand:" + sid}])[0]["op"] if nontrivial else "no-schedule")
         reported = set()
+        if all(len({o.get(k, "<missing>") for o in outs}) <= 1 for k in keys):
+            for _ in good:
+                ck.corr_agree(stream)  # all variants of this session agree byte for byte
         for k in keys:
             vals = [o.get(k, "<missing>") for o in outs]
             if len(set(vals)) <= 1:
